@@ -12,7 +12,7 @@ COMMON_NOTE = (
 
 PROPS = {
     "C01": dict(
-        text="Kernel-checked theorems that the model of _check_dims/_check_shape/__instancecheck_str__ accepts exactly the shapes the declarative dim-string semantics (Matches under one total assignment extending the context) accepts, for every dim list, shape, memo and history; the branch structure of _check_dims and of the multi-axis part of _check_shape is TRANSLATED from the current source on every run (harness/translate.py -> Generated/CheckCode.lean) and proved equal to the model's checkDim / vstep by scripts that survive meaning-preserving restructurings and fail on others; the index arithmetic of _check_shape (i, j = -(len(dims) - i - 1), 'if j == 0: j = None', the slices [:i] / [j:] / [i:j] under Python's slice rules, both rank tests) is translated as well and proved to take exactly the prefix / suffix / middle the model uses, for every number of axes, position of the multi-axis specifier and rank (C01_source_slices, C01_source_rank_tests, C01_source_slices_lists); the model is tied to the code by an exhaustive small-scope plus random differential run of verdicts and print_bindings() on histories of checks.",
+        text="Kernel-checked theorems that the model of _check_dims/_check_shape/__instancecheck_str__ accepts exactly the shapes the declarative dim-string semantics (Matches under one total assignment extending the context) accepts, for every dim list, shape, memo and history; the branch structure of _check_dims and of the multi-axis part of _check_shape is TRANSLATED from the current source on every run (harness/translate.py -> Generated/CheckCode.lean) and proved equal to the model's checkDim / vstep by scripts that survive meaning-preserving restructurings and fail on others; the index arithmetic of _check_shape (i, j = -(len(dims) - i - 1), 'if j == 0: j = None', the slices [:i] / [j:] / [i:j] under Python's slice rules, both rank tests) is translated as well and proved to take exactly the prefix / suffix / middle the model uses, for every number of axes, position of the multi-axis specifier and rank (C01_source_slices, C01_source_rank_tests, C01_source_slices_lists); both wrappers are read to push the arguments of bind(*args, **kwargs) after an unconditional apply_defaults(), so '{name}' axes see every parameter of the current call (C01_source_arguments); the model is tied to the code by an exhaustive small-scope plus random differential run of verdicts and print_bindings() on histories of checks.",
         note="Modelled not verified: numpy.broadcast_shapes (compared with JV.bcast on every run), eval of symbolic axes outside the integer fragment (+ - * // unary minus, {arg}), dict ordering.",
         technique="Lean 4 proof (greedy walk = satisfiability, induction over axes and histories; source-to-model translation re-proved equal to the model on every run) + differential correspondence",
         design="§4 C01",
@@ -38,7 +38,7 @@ PROPS = {
         technique="Lean 4 proof (invariant by mutual induction over programs, skeleton facts extracted from source) + program-level differential run",
     ),
     "C12": dict(
-        text="Kernel-checked theorems: for every program and every fault (Exception or BaseException raised by user code at any call-out: argument formatting, custom flattener, leaf __instancecheck__, wrapped function) the flatten-mode flag and the '?'-leaf label are off afterwards (rest invariant, by mutual induction over leaf types / values / programs, given the two try/finally facts extracted from the source, each shown to matter); at rest the verdict is a function of value, annotation and the current frame only. On the real code: fault enumeration over the catalogue x call-out points x 2 classes followed by the probe set and a peek at the thread-local storage, plus random histories of public-API operations followed by probes of a fixed annotation object.",
+        text="Kernel-checked theorems: for every program and every fault (Exception or BaseException raised by user code at any call-out: argument formatting, custom flattener, leaf __instancecheck__, wrapped function) the flatten-mode flag and the '?'-leaf label are off afterwards (rest invariant, by mutual induction over leaf types / values / programs, given the two try/finally facts extracted from the source, each shown to matter); at rest the verdict is a function of value, annotation and the current frame only; the list of every piece of process-wide mutable state in jaxtyping/*.py outside _storage.py, regenerated from the source on every run, equals the twelve known entries, none of which can remember a check (C12_no_other_state). On the real code: fault enumeration over the catalogue x call-out points x 2 classes followed by the probe set and a peek at the thread-local storage, plus random histories of public-API operations followed by probes of a fixed annotation object, probes from other threads, re-use of one annotation object under other bindings, and pickling round trips of annotations that differ only in equal-comparing parts.",
         note="Known finding F2 (old-style decoration of a generator function makes the shared annotation object transparent) is reported as KNOWN-FINDING. Call-outs the model does not represent (array attribute access, array-type __instancecheck__, a raising typechecker) are evaluated on the implementation only.",
         technique="Lean 4 proof (rest invariant by mutual structural induction; skeleton facts from source) + fault enumeration",
     ),
@@ -48,8 +48,8 @@ PROPS = {
         technique="Lean 4 proof (permutation invariance of modifier stripping, whitespace splitting) + exhaustive token enumeration",
     ),
     "C06": dict(
-        text="Kernel-checked theorems about a model of the three storage cells (context stack, '?'-leaf label, flatten-mode flag) under threads, each cell thread-local or process-global as read from the current _storage.py: with thread-local cells, for every family of thread programs (any number of threads; a step is an ARBITRARY function of the cells the running thread sees, so every granularity of preemption is covered), every initial world and EVERY schedule, what a thread observes - its cells, its position, its transcript of verdicts and bindings - is what it observes running alone for as many steps as the schedule gave it (induction over the schedule: frame + determinism); the cells read from the source today are all thread-local (decide); each cell matters (with any one process-global a two-thread schedule makes thread 0 read thread 1's write). On the real code: 3 real threads under a deterministic settrace scheduler (no source hook), preemptible at every line of _storage.py (quick) or of every jaxtyping file (thorough); for every thread A and EVERY yield point p of A the other threads run to completion inside A's p-th point, plus seeded two-window and multi-segment schedules; workloads of context blocks, new/old-style calls, array checks, PyTree checks with '?' axes and structure names, custom nodes, rollbacks and leak-revealing probes; per-thread transcripts must equal the solo run, which must equal the Lean model's sequential prediction.",
-        note="Partial: the theorem speaks about interleavings of steps over the modelled cells; CPython's threading.local implementation, the GIL, C extensions (jax.tree_util) and preemption between two bytecodes of one source line are not exhibited by the model nor exercised by the scheduler. Process-global state outside _storage.py (the config flags, the lru caches, the per-annotation transparency switch of known finding F2) is outside this property's cells.",
+        text="Kernel-checked theorems about a model of the three storage cells (context stack, '?'-leaf label, flatten-mode flag) under threads, each cell thread-local or process-global as read from the current _storage.py: with thread-local cells, for every family of thread programs (any number of threads; a step is an ARBITRARY function of the cells the running thread sees, so every granularity of preemption is covered), every initial world and EVERY schedule, what a thread observes - its cells, its position, its transcript of verdicts and bindings - is what it observes running alone for as many steps as the schedule gave it (induction over the schedule: frame + determinism); the cells read from the source today are all thread-local (decide); each cell matters (with any one process-global a two-thread schedule makes thread 0 read thread 1's write); the list of every other piece of process-wide mutable state in jaxtyping/*.py, regenerated from the source on every run (module-level containers, mutable class attributes, global statements, memoising decorators), equals the twelve known entries (value-keyed construction caches, constant tables, the hook's typechecker table, two write-once flags), so a new shared cell anywhere breaks an obligation. On the real code: 3 real threads under a deterministic settrace scheduler (no source hook), preemptible at every line of _storage.py (quick) or of every jaxtyping file (thorough); for every thread A and EVERY yield point p of A the other threads run to completion inside A's p-th point, plus seeded two-window and multi-segment schedules; workloads of context blocks, new/old-style calls, array checks, PyTree checks with '?' axes and structure names, custom nodes, rollbacks and leak-revealing probes; per-thread transcripts must equal the solo run, which must equal the Lean model's sequential prediction.",
+        note="Partial: the theorem speaks about interleavings of steps over the modelled cells; CPython's threading.local implementation, the GIL, C extensions (jax.tree_util) and preemption between two bytecodes of one source line are not exhibited by the model nor exercised by the scheduler. Process-global state outside _storage.py is listed and compared with the known list, but what the known entries do (the config flags, the lru caches, the per-annotation transparency switch of known finding F2) is outside this property's cells.",
         technique="Lean 4 proof (non-interference for every schedule by induction, extracted storage kinds) + systematic one-preemption schedule enumeration on real threads",
     ),
     "C07": dict(
@@ -104,7 +104,7 @@ PROPS = {
         technique="Lean 4 proof (the check is a function of type test, dtype and shape; extracted attribute-use facts) + eager-vs-transformed differential run under jit / vmap / grad / eval_shape",
     ),
     "C18": dict(
-        text="Kernel-checked theorems about the model of the loader's bytecode cache: with the cache-name patch confined to get_code (fact re-extracted from the current source and decided, as is the presence of the typechecker hash in the tag), the invariant 'every entry is what its tag says' holds for every reachable cache and every load of every run of every history (any hooked subsets, typecheckers, nested import orders, source edits, runs that write bytecode and runs that only read it) executes the code the current source and configuration call for; tags of different configurations never collide; with the patch spanning exec_module a two-run history provably executes stale code (the repaired defect F1), and so does skipping the patch in a run that writes no bytecode. On the real code: histories of 2-4 fresh interpreter runs over one cache directory, each run with bytecode writing on or off (-B), modules with nested imports, hooked subsets / typecheckers / source edits varied; per module: instrumented?, by which checker, current source?",
+        text="Kernel-checked theorems about the model of the loader's bytecode cache: with the cache-name patch confined to get_code (fact re-extracted from the current source and decided, as are the presence of the typechecker hash in the tag, the single md5 key shared by decorator text, lookup table and file name, and the absence of any path through source_to_code that compiles a module without the transformer having run), the invariant 'every entry is what its tag says' holds for every reachable cache and every load of every run of every history (any hooked subsets, typecheckers, nested import orders, source edits, runs that write bytecode and runs that only read it) executes the code the current source and configuration call for; tags of different configurations never collide; with the patch spanning exec_module a two-run history provably executes stale code (the repaired defect F1), and so does skipping the patch in a run that writes no bytecode. On the real code: histories of 2-4 fresh interpreter runs over one cache directory, each run with bytecode writing on or off (-B), modules with nested imports, hooked subsets / typecheckers / source edits varied; per module: instrumented?, by which checker, current source?",
         note="Partial: the file system, mtime/size validation of pyc files and importlib's SourceLoader are modelled (version number = what the validation compares), not verified.",
         technique="Lean 4 proof (cache invariant by induction over histories of runs; extracted patch-scope fact) + multi-run subprocess histories",
     ),
